@@ -20,6 +20,7 @@ RULE = ('one evaluation = one seeded simulated run of 2-4 contenders (threads sh
         'release-without-acquire attempts; each contender uses explicit acquire/release, a with statement, or a fresh handle object for every acquire and release (dropped and collected in between), and in seeded rounds the critical section (or the barrier-wrapped function) raises; a witness independent of the cache counts holders on every entry; the run must finish, the exception of the section must come out unchanged and the stored state must say free at the end '
         '(every waiter eventually acquires); non-trivial = at least one context switch inside a critical section or a contended '
         'acquire; distinct = SHA-256 of the seam event log')
+RULE += ' ' + 'In one run in seven every contender first takes an uncontended primitive of the same kind and key on a cache of its own and keeps it throughout.'
 ASSUMPTIONS = ['polling acquire loops (1 ms virtual sleeps) are run with critical sections of at most a few virtual milliseconds',
                'lock keys carry no expiry in this check']
 PROBES = ('contended_acquire', 'nested_rlock', 'bad_release_refused', 'lock_wait', 'barrier_calls', 'with_statement', 'cs_raised', 'barrier_mixed_with_primitive', 'fresh_handles', 'json_disk', 'long_section', 'outer_same_key')
